@@ -31,7 +31,14 @@ def getSample (j : Json) : Except String (Nat × TSample) := do
   let k ← getNat j "task"
   let abs ← getRat j "abs"
   let rel ← getRat j "rel"
-  let period ← getRat j "period"
+  -- time_period either given, or as the executor computes it: request_end - total_start (doubles)
+  let period ← match j.getObjVal? "req_end" with
+    | .ok _ => do
+      let re ← getRat j "req_end"
+      let ts ← getRat j "total_start"
+      if !(okNum re && okNum ts) then throw "out-of-domain"
+      pure (Dbl.fsub re ts)
+    | .error _ => getRat j "period"
   let normal ← getBool j "normal"
   if !(okNum abs && okNum rel && okNum period) then throw "out-of-domain"
   match j.getObjVal? "result" with
@@ -96,13 +103,20 @@ partial def ppTags (stats : List (Nat × TaskStats)) : List (List (Nat × TSampl
     let t := if call.isEmpty then t ++ ["empty-batch"] else t
     ppTags r.1 rest t
 
-def getEvent (j : Json) : Except String DEvent :=
+def getEvent (j : Json) : Except String FEvent :=
   match j with
   | Json.str "pp" => pure .postProcess
-  | _ => do
-    let xs ← j.getArr?
+  | Json.arr xs => do
     let ss ← xs.toList.mapM getSample
     pure (.update ss)
+  | _ => do
+    -- {"fault": null} = the store fails in flush(); {"fault": j} = after j throughput records of the run
+    let w ← getOptNat j "fault"
+    pure (.faultyRun w)
+
+def isFault : FEvent → Bool
+  | .faultyRun _ => true
+  | _ => false
 
 def handle (op : String) (a : Json) : Except String Json := do
   match op with
@@ -124,10 +138,14 @@ def handle (op : String) (a : Json) : Except String Json := do
     -- Driver.update_samples / Driver.post_process_samples in front of SamplePostprocessor.__call__
     let evsJ ← getArr a "events"
     let evs ← evsJ.mapM getEvent
-    let r := driverRun [] [] evs
-    let tags := ppTags [] (driverBatches [] evs) []
-    let recs := r.2.map fun c => arr (c.map fun ko => arr [toJson ko.1, outJson ko.2])
-    return ok (Json.mkObj [("runs", arr recs), ("buffered", toJson r.1.1.length), ("stats", arr (r.1.2.map statsJson))]) tags.eraseDups
+    let hevs := evs.map healed
+    let tags := ppTags [] (driverBatches [] hevs) []
+    let recJ := fun (runs : List (List (Nat × Out))) => arr (runs.map fun c => arr (c.map fun ko => arr [toJson ko.1, outJson ko.2]))
+    if evs.any isFault then
+      return ok (Json.mkObj [("runs", recJ (driverRunF [] [] evs)), ("aborted", toJson true)]) (tags ++ ["store-fault"]).eraseDups
+    let r := driverRun [] [] hevs
+    return ok (Json.mkObj [("runs", recJ r.2), ("aborted", toJson false), ("buffered", toJson r.1.1.length),
+      ("stats", arr (r.1.2.map statsJson))]) tags.eraseDups
   | "sort" =>
     -- stable sort by absolute time (correspondence with Python's `sorted(key=…)`); returns the permutation of ids
     let xs ← getArr a "abs"
